@@ -126,6 +126,7 @@ func checkC14(r *evid.Run) {
 	if r.Seed%2 == 0 {
 		c = concs[0]
 	}
+	multibyte := tok.MakeConc(1, 0, true, allChunkIDs, nil) // "αλφα", "日本語", "🌳🌲", ...
 	ch := make(chan *tla.State, 256)
 	var wg sync.WaitGroup
 	for i := 0; i < runtime.NumCPU(); i++ {
@@ -143,7 +144,12 @@ func checkC14(r *evid.Run) {
 					r.Count("distinct_nontrivial", 1)
 				}
 				if s.Kind == "read" {
-					checkReaderFault(r, pool, s, c, routes, f)
+					// every other read state with names of several bytes per character (the reader may fail INSIDE one)
+					cr := c
+					if s.N%2 == 1 {
+						cr = multibyte
+					}
+					checkReaderFault(r, pool, s, cr, routes, f)
 				} else {
 					checkWriterFault(r, pool, s, c, routes, f)
 				}
